@@ -8,23 +8,45 @@
 (* rows.  P is the preconditioner as a matrix (M^-1), side is "left" or "right".     *)
 EXTENDS Rat, FiniteSets
 
+\* ------------------------------------------------------------ arithmetic in Q
+\* Rat.tla multiplies before it reduces; TLC integers are 32 bit and an overflow is an
+\* error.  These variants cancel common factors first, so that an operation overflows
+\* only if its reduced result does.  All values are kept normalised (Norm), hence
+\* equality of rationals is equality of pairs.
+QMul(a, b) == IF a[1] = 0 \/ b[1] = 0 THEN RZero
+              ELSE LET g1 == GCD(RAbsI(a[1]), b[2])
+                       g2 == GCD(RAbsI(b[1]), a[2])
+                   IN  <<(a[1] \div g1) * (b[1] \div g2), (a[2] \div g2) * (b[2] \div g1)>>
+QAdd(a, b) == LET g == GCD(a[2], b[2])
+              IN  Norm(a[1] * (b[2] \div g) + b[1] * (a[2] \div g), (a[2] \div g) * b[2])
+QSub(a, b) == QAdd(a, RNeg(b))
+QDiv(a, b) == QMul(a, RInv(b))
+QEq(a, b)  == a = b
+QLe(a, b)  == LET g == GCD(a[2], b[2]) IN a[1] * (b[2] \div g) <= b[1] * (a[2] \div g)
+QLt(a, b)  == LET g == GCD(a[2], b[2]) IN a[1] * (b[2] \div g) < b[1] * (a[2] \div g)
+RECURSIVE QSumSeq(_)
+QSumSeq(s) == IF s = <<>> THEN RZero ELSE QAdd(s[1], QSumSeq([k \in 1..(Len(s) - 1) |-> s[k + 1]]))
+\* largest numerator / denominator in a vector (to keep clear of the 32-bit limit)
+VSize(v)   == LET S == {RAbsI(v[i][1]) : i \in 1..Len(v)} \cup {v[i][2] : i \in 1..Len(v)}
+              IN  CHOOSE m \in S : \A y \in S : y <= m
+
 \* ------------------------------------------------------------ linear algebra in Q
 Dim(v)        == Len(v)
 RVec(v)       == [i \in 1..Len(v) |-> R(v[i])]                       \* integer vector -> Q^n
 RMat(M)       == [i \in 1..Len(M) |-> RVec(M[i])]
 ZeroVec(n)    == [i \in 1..n |-> RZero]
-VAdd(a, b)    == [i \in 1..Len(a) |-> RAdd(a[i], b[i])]
-VSub(a, b)    == [i \in 1..Len(a) |-> RSub(a[i], b[i])]
-VScale(c, a)  == [i \in 1..Len(a) |-> RMul(c, a[i])]
+VAdd(a, b)    == [i \in 1..Len(a) |-> QAdd(a[i], b[i])]
+VSub(a, b)    == [i \in 1..Len(a) |-> QSub(a[i], b[i])]
+VScale(c, a)  == [i \in 1..Len(a) |-> QMul(c, a[i])]
 VAxpy(c, a, b) == VAdd(VScale(c, a), b)                              \* c a + b
-Dot(a, b)     == RSumSeq([i \in 1..Len(a) |-> RMul(a[i], b[i])])
+Dot(a, b)     == QSumSeq([i \in 1..Len(a) |-> QMul(a[i], b[i])])
 MatVec(M, v)  == [i \in 1..Len(M) |-> Dot(M[i], v)]
 IsZeroVec(v)  == \A i \in 1..Len(v) : IsZero(v[i])
-VEq(a, b)     == Len(a) = Len(b) /\ \A i \in 1..Len(a) : REq(a[i], b[i])
+VEq(a, b)     == Len(a) = Len(b) /\ \A i \in 1..Len(a) : QEq(a[i], b[i])
 Identity(n)   == [i \in 1..n |-> [j \in 1..n |-> IF i = j THEN ROne ELSE RZero]]
 Transpose(M)  == [j \in 1..Len(M[1]) |-> [i \in 1..Len(M) |-> M[i][j]]]
 \* sum_j y[j] * V[j]  (V a sequence of vectors)
-LinComb(y, V, n) == [i \in 1..n |-> RSumSeq([j \in 1..Len(V) |-> RMul(y[j], V[j][i])])]
+LinComb(y, V, n) == [i \in 1..n |-> QSumSeq([j \in 1..Len(V) |-> QMul(y[j], V[j][i])])]
 
 \* determinant by cofactor expansion along the first row (k <= 3 in practice)
 Minor(M, r, c) == LET k == Len(M)
@@ -33,16 +55,16 @@ Minor(M, r, c) == LET k == Len(M)
 RECURSIVE Det(_)
 Det(M) == IF Len(M) = 0 THEN ROne
           ELSE IF Len(M) = 1 THEN M[1][1]
-          ELSE RSumSeq([c \in 1..Len(M) |->
-                   RMul(IF c % 2 = 1 THEN M[1][c] ELSE RNeg(M[1][c]), Det(Minor(M, 1, c)))])
+          ELSE QSumSeq([c \in 1..Len(M) |->
+                   QMul(IF c % 2 = 1 THEN M[1][c] ELSE RNeg(M[1][c]), Det(Minor(M, 1, c)))])
 ReplaceCol(M, c, b) == [i \in 1..Len(M) |-> [j \in 1..Len(M) |-> IF j = c THEN b[i] ELSE M[i][j]]]
 \* Cramer's rule; requires Det(M) # 0
-SolveQ(M, b) == LET d == Det(M) IN [c \in 1..Len(M) |-> RDiv(Det(ReplaceCol(M, c, b)), d)]
+SolveQ(M, b) == LET d == Det(M) IN [c \in 1..Len(M) |-> QDiv(Det(ReplaceCol(M, c, b)), d)]
 Nonsingular(M) == ~IsZero(Det(M))
-Symmetric(M)   == \A i, j \in 1..Len(M) : REq(M[i][j], M[j][i])
+Symmetric(M)   == \A i, j \in 1..Len(M) : QEq(M[i][j], M[j][i])
 \* leading principal minors positive
 PosDef(M) == /\ Symmetric(M)
-             /\ \A k \in 1..Len(M) : RLt(RZero, Det([i \in 1..k |-> [j \in 1..k |-> M[i][j]]]))
+             /\ \A k \in 1..Len(M) : QLt(RZero, Det([i \in 1..k |-> [j \in 1..k |-> M[i][j]]]))
 
 Residual(A, f, x) == VSub(f, MatVec(A, x))
 
@@ -52,7 +74,7 @@ KrylovSeq(B, v, k) == IF k = 0 THEN <<>>
                       ELSE IF k = 1 THEN <<v>>
                       ELSE LET prev == KrylovSeq(B, v, k - 1) IN Append(prev, MatVec(B, prev[k - 1]))
 Gram(V, W)   == [i \in 1..Len(V) |-> [j \in 1..Len(W) |-> Dot(V[i], W[j])]]
-MatMul(A, B) == [i \in 1..Len(A) |-> [j \in 1..Len(B[1]) |-> RSumSeq([l \in 1..Len(B) |-> RMul(A[i][l], B[l][j])])]]
+MatMul(A, B) == [i \in 1..Len(A) |-> [j \in 1..Len(B[1]) |-> QSumSeq([l \in 1..Len(B) |-> QMul(A[i][l], B[l][j])])]]
 
 \* ------------------------------------------------------------------------ CG
 \* x_k = the minimiser of ||x - x*||_A over x0 + K_k(P A, P r0): Galerkin condition
@@ -112,21 +134,22 @@ BiStep(B, g, st) ==
     IF ~st.def \/ st.done THEN st
     ELSE LET rho1 == Dot(g, st.r)
          IN  IF IsZero(st.rho) \/ IsZero(st.omega) \/ IsZero(rho1) THEN [st EXCEPT !.def = FALSE]
-             ELSE LET beta == RMul(RDiv(rho1, st.rho), RDiv(st.alpha, st.omega))
+             ELSE LET beta == QMul(QDiv(rho1, st.rho), QDiv(st.alpha, st.omega))
                       p    == VAdd(st.r, VScale(beta, VSub(st.p, VScale(st.omega, st.v))))
                       v    == MatVec(B, p)
                       den  == Dot(g, v)
                   IN  IF IsZero(den) THEN [st EXCEPT !.def = FALSE]
-                      ELSE LET alpha == RDiv(rho1, den)
+                      ELSE LET alpha == QDiv(rho1, den)
                                s     == VSub(st.r, VScale(alpha, v))
                            IN  IF IsZeroVec(s)
                                THEN [st EXCEPT !.u = VAxpy(alpha, p, st.u), !.r = s, !.done = TRUE]
                                ELSE LET t     == MatVec(B, s)
-                                        omega == RDiv(Dot(t, s), Dot(t, t))
+                                        omega == QDiv(Dot(t, s), Dot(t, t))
                                         r     == VSub(s, VScale(omega, t))
-                                    IN  [u |-> VAdd(VAxpy(alpha, p, st.u), VScale(omega, s)),
-                                         r |-> r, p |-> p, v |-> v, rho |-> rho1, alpha |-> alpha,
-                                         omega |-> omega, def |-> TRUE, done |-> IsZeroVec(r)]
+                                    IN  IF IsZero(omega) THEN [st EXCEPT !.def = FALSE]     \* stagnation breakdown
+                                        ELSE [u |-> VAdd(VAxpy(alpha, p, st.u), VScale(omega, s)),
+                                              r |-> r, p |-> p, v |-> v, rho |-> rho1, alpha |-> alpha,
+                                              omega |-> omega, def |-> TRUE, done |-> IsZeroVec(r)]
 RECURSIVE BiRun(_, _, _)
 BiRun(B, g, k) == IF k = 0 THEN BiInit(B, g) ELSE BiStep(B, g, BiRun(B, g, k - 1))
 \* preconditioned: left = the algorithm on (P A) x = P f, right = on (A P) u = f with x = P u,
